@@ -109,7 +109,7 @@ def expected(field, kind):
 def r_tables(ctx, prog):
     what = ('every entry of every compiled copy of the precomputed GF(2^4)/GF(2^8) tables equals arithmetic in '
             'GF(2)[x]/(x^4+x+1) resp. GF(2)[x]/(x^8+x^4+x^3+x^2+1) with generator x (independent reference)')
-    ctx.rule('R-TABLES', what, floor=7)
+    ctx.rule('R-TABLES', what, floor=1)
     ctx.need(GF16.primitive() and GF256.primitive(), 'R-TABLES', 'reference field self-check failed')
     seen_names = set()
     for u in prog.units + prog.probes:
@@ -215,7 +215,7 @@ RS8_TABLES = ('of_gf_mul_table', 'of_rs_gf_exp', 'of_rs_gf_log', 'of_rs_inverse'
 def r_poly(ctx, prog):
     """The generated RS-2^8 tables are built from the primitive polynomial 1+x^2+x^3+x^4+x^8."""
     ctx.rule('R-POLY', 'of_generate_gf reads the polynomial string of_rs_allPp[8] and that entry is "101110001" '
-             '(x^8+x^4+x^3+x^2+1, low degree first); the table of strings is never written', floor=2)
+             '(x^8+x^4+x^3+x^2+1, low degree first); the table of strings is never written', floor=1)
     f = prog.need_fn('of_generate_gf', 'R-POLY', RS8_UNIT)
     u = f.unit
     g = u.globals.get('of_rs_allPp')
@@ -292,7 +292,7 @@ def r_table_writers(ctx, prog):
     arguments; every other function only loads from them."""
     ctx.rule('R-TABLE-WRITERS', 'stores into of_rs_gf_exp/log/inverse/of_gf_mul_table and of_rs_initialized occur only in '
              'of_generate_gf / of_rs_init_mul_table / of_rs_init, which take no parameters and read no session data',
-             floor=5)
+             floor=1)
     u = None
     for x in prog.units:
         if x.name == RS8_UNIT:
@@ -392,7 +392,7 @@ def r_init_before_use(ctx, prog):
     """
     R = 'R-INIT-BEFORE-USE'
     ctx.rule(R, 'generated RS-2^8 tables are initialised before any reader can run (init flag discipline in of_rs_new; '
-             'encode/decode only take descriptors made by of_rs_new)', floor=6)
+             'encode/decode only take descriptors made by of_rs_new)', floor=1)
     u = [x for x in prog.units if x.name == RS8_UNIT]
     ctx.need(u, R, 'unit missing')
     u = u[0]
